@@ -18,6 +18,7 @@ SOLVERS = ['panoc']           # ZeroFPR / PANTR / PANOC-OCP: append once their l
 
 # what the monitors covered (written to the evidence file)
 COUNTS = {}
+HUNG = []
 
 # inputs kept from earlier failures, run first
 CORPUS = [
@@ -208,11 +209,13 @@ def main(argv):
     tier = C.tier_from_argv(argv)
 
     def gen_ops(rng, n):
-        ops, dropped = LP.drop_non_functional(exe, [gen_run(rng).line() for _ in range(n)])
+        ops, dropped, hung = LP.prescreen(exe, [gen_run(rng).line() for _ in range(n)])
         bump('runs_dropped_nan_injection_not_replayable', dropped)
+        HUNG.extend(hung)
         return ops
 
     def extra(rep, broken, exe_, tier_):
+        LP.report_hung(rep, HUNG, 'PANOC')
         rep.cov['monitor_counts'] = dict(sorted(COUNTS.items()))
         rep.note('monitor coverage: ' + ', '.join(f'{k}={v}' for k, v in sorted(COUNTS.items())))
         for need in ('descent_accelerated', 'descent_safeguarded', 'qub_holds', 'runs_adversarial_direction'):
